@@ -53,6 +53,9 @@ structure RetainedPacket where
   offset : Nat
   len : Nat
   state : SendState
+  /-- Ghost: serial number of the enqueue that created the entry (not in the code, never printed;
+  lets theorems speak of "the same packet" at two points of an execution). -/
+  ser : Nat := 0
   deriving DecidableEq, Repr, Inhabited
 
 structure Outbound where
@@ -61,6 +64,8 @@ structure Outbound where
   control : List PendingControl
   retained : List RetainedPacket
   release : List PendingRelease
+  /-- Ghost: number of packets retained so far. -/
+  nextSer : Nat := 0
   deriving Repr, Inhabited
 
 namespace Outbound
@@ -174,8 +179,8 @@ def retainedPacket (o : Outbound) (off len : Nat) : Bytes := slice o.buf off len
 def retainPacket (o : Outbound) (id off len : Nat) : Option Outbound :=
   if o.retained.length ≥ MAX_RETAINED then none
   else some { o with
-    retained := o.retained ++ [{ id := id, offset := off, len := len, state := .write 0 }],
-    used := max o.used (off + len) }
+    retained := o.retained ++ [{ id := id, offset := off, len := len, state := .write 0, ser := o.nextSer }],
+    used := max o.used (off + len), nextSer := o.nextSer + 1 }
 
 inductive Step where
   | control (a : ControlAction) (s : SendState)
